@@ -82,6 +82,7 @@ class Gen(object):
         self.ok = [set()]        # instance variables known to hold a live instance
         self.n = 0
         self.loops = 0
+        self.home = 'func'
 
     # ---- symbol table ----
     def vars_of(self, ty):
@@ -235,6 +236,8 @@ class Gen(object):
             kinds += ['delete']
         if self.syntax_only:
             kinds += ['syntax', 'syntax']
+        if getattr(self, 'calls', False):
+            kinds += ['callable', 'callable', 'callable']
         k = r.choice(kinds)
         if k == 'assign':
             ty = r.choice(['int', 'int', 'bool', 'str'])
@@ -358,70 +361,80 @@ class Gen(object):
             return Ret(self.maybe_paren(self.expr(r.choice(['int', 'int', 'bool', 'str']))) if r.random() < 0.85 else None)
         if k == 'syntax':
             return self.syntax_stmt()
+        if k == 'callable':
+            return self.callable_stmt()
         return None
 
-    # statement productions that are only parsed (events, bridges, operations, ports, arrays, enumerators)
-    def syntax_stmt(self):
+    # name-resolved invocations of the callables every C05/C06 model declares (see vt/callgen.py, vt/adapters/prebuildgen.py)
+    def callable_stmt(self):
         r = self.rnd
-        ps = lambda: [{'n': r.choice(['p', 'q', 'value']), 'e': self.expr(r.choice(['int', 'bool', 'str']))}
-                      for _ in range(r.randint(0, 3))]
-        ev = lambda: {'id': r.choice(['A1', 'B2', 'E_3']), 'poly': False, 'meaning': r.choice(['', "'go'", "'ready now'"]),
-                      'hasdata': False, 'data': []}
+        ps = lambda **kw: [{'n': a, 'e': e} for a, e in kw.items()]
+        intv = lambda: self.expr('int', self.maxdepth - 1)
+        kinds = ['fcall_stmt', 'fcall_value', 'mix', 'classop', 'classop_value', 'bridge', 'bridge_assign', 'enum', 'const',
+                 'bridge_value']
+        if self.home != 'derived':
+            kinds += ['param', 'param_if']        # a derived attribute has no parameters
+        la = self.live_insts('A')
+        if la:
+            kinds += ['instop', 'instop_value']
+        if self.home in ('op', 'derived'):
+            kinds += ['self_attr', 'self_read', 'self_op']
+        k = r.choice(kinds)
 
-        def evd():
-            e = ev()
-            e['data'] = ps()
-            e['hasdata'] = bool(e['data'])
-            return e
-        k = r.choice(['bridge', 'bridge_assign', 'class_op', 'class_assign', 'inst_op', 'fcall', 'fcall_value', 'send', 'control',
-                      'gen_class', 'gen_inst', 'gen_pre', 'create_ev_class', 'create_ev_inst', 'send_event', 'enum', 'index',
-                      'param', 'create_nv', 'using', 'selfattr'])
-        icall = lambda kind: {'t': 'icall', 'kind': kind, 'ns': r.choice(['LOG', 'ARCH', 'T_1']), 'n': r.choice(['LogInfo', 'op', 'f2']),
-                              'ps': ps()}
-        if k == 'bridge':
-            return {'t': 'call', 'inv': icall('bridge')}
-        if k == 'bridge_assign':
-            return Assign(V(self.fresh('int', 'b')), icall('bridge'))
-        if k == 'class_op':
-            return {'t': 'call', 'inv': icall(r.choice(['class', 'implicit']))}
-        if k == 'class_assign':
-            return Assign(V(self.fresh('int', 'k')), icall(r.choice(['class', 'implicit'])))
-        if k == 'send':
-            return r.choice([{'t': 'call', 'inv': icall('port')}, Assign(V(self.fresh('int', 'p')), icall('port'))])
-        if k == 'inst_op':
-            h = r.choice([V('someinst'), {'t': 'self'}])
-            return {'t': 'call', 'inv': {'t': 'ocall', 'h': h, 'n': 'compute', 'ps': ps()}}
-        if k == 'fcall':
-            return {'t': 'call', 'inv': {'t': 'fcall', 'n': r.choice(['f', 'do_it']), 'ps': ps()}}
+        def assign_new(ty, prefix, e):
+            # the value is generated before the variable exists
+            return Assign(V(self.fresh(ty, prefix)), e)
+
+        def scoped(make):
+            self.scopes.append({})
+            self.ok.append(set())
+            body = make()
+            self.scopes.pop()
+            self.ok.pop()
+            return body
+        if k == 'fcall_stmt':
+            return {'t': 'call', 'inv': {'t': 'fcall', 'n': 'fact', 'ps': ps(n=intv())}}
         if k == 'fcall_value':
-            return Assign(V(self.fresh('int', 'f')), Bin('+', {'t': 'fcall', 'n': 'g', 'ps': ps()}, I(1)))
-        if k == 'control':
-            return {'t': 'control'}
-        if k == 'gen_class':
-            return {'t': 'gen_class', 'ev': evd(), 'k': 'A', 'word': r.choice(['class', 'creator'])}
-        if k == 'gen_inst':
-            return {'t': 'gen_inst', 'ev': evd(), 'to': r.choice([V('target'), {'t': 'self'}])}
-        if k == 'gen_pre':
-            return {'t': 'gen_pre', 'e': V('evt')}
-        if k == 'create_ev_class':
-            return {'t': 'create_ev_class', 'v': 'evt', 'ev': evd(), 'k': 'B', 'word': r.choice(['class', 'creator'])}
-        if k == 'create_ev_inst':
-            return {'t': 'create_ev_inst', 'v': 'evt', 'ev': evd(), 'to': r.choice([V('target'), {'t': 'self'}])}
-        if k == 'send_event':
-            return {'t': 'send_event', 'port': 'Port1', 'n': 'sig', 'ps': ps(), 'to': V('target')}
-        if k == 'enum':
-            return Assign(V(self.fresh('int', 'n')), {'t': 'enum', 'ns': 'Color', 'n': r.choice(['RED', 'green'])})
-        if k == 'index':
-            return Assign({'t': 'index', 'h': V('arr'), 'e': self.expr('int')},
-                          {'t': 'index', 'h': Field(V('rec'), 'items'), 'e': I(r.randint(0, 3))})
+            return assign_new('int', 'f', Bin('+', {'t': 'fcall', 'n': 'fact', 'ps': ps(n=intv())}, I(1)))
+        if k == 'mix':
+            args = [('a', intv()), ('b', intv()), ('s', self.expr('str', self.maxdepth)), ('f', self.expr('bool', self.maxdepth))]
+            r.shuffle(args)
+            return assign_new('int', 'm', {'t': 'fcall', 'n': 'mix', 'ps': [{'n': a, 'e': e} for a, e in args]})
+        if k == 'classop':
+            return {'t': 'call', 'inv': {'t': 'icall', 'kind': 'implicit', 'ns': 'A', 'n': 'cop', 'ps': ps(x=intv())}}
+        if k == 'classop_value':
+            return assign_new('int', 'k', Bin('-', {'t': 'icall', 'kind': 'implicit', 'ns': 'A', 'n': 'cop', 'ps': ps(x=intv())}, I(2)))
+        if k == 'bridge':
+            return {'t': 'call', 'inv': {'t': 'icall', 'kind': 'bridge', 'ns': 'EE1', 'n': 'br',
+                                         'ps': ps(s=self.expr('str', self.maxdepth), n=intv())}}
+        if k == 'bridge_assign':
+            return assign_new('int', 'b', {'t': 'icall', 'kind': 'implicit', 'ns': 'EE1', 'n': 'br',
+                                           'ps': ps(s=self.expr('str', self.maxdepth), n=intv())})
+        if k == 'bridge_value':
+            inv = lambda: {'t': 'icall', 'kind': 'implicit', 'ns': 'EE1', 'n': 'br', 'ps': ps(s=Str('x'), n=intv())}
+            c = Bin('!=', I(4), inv())
+            return If(c, scoped(lambda: [assign_new('int', 'q', Bin('*', inv(), I(2)))]))
+        if k == 'instop':
+            n, _ = r.choice(la)
+            return {'t': 'call', 'inv': {'t': 'ocall', 'h': V(n), 'n': 'iop', 'ps': ps(k=intv())}}
+        if k == 'instop_value':
+            n, _ = r.choice(la)
+            return assign_new('int', 'o', Bin('+', {'t': 'ocall', 'h': V(n), 'n': 'iop', 'ps': ps(k=intv())}, I(1)))
         if k == 'param':
-            return Assign(V(self.fresh('int', 'a')), Bin('*', {'t': 'param', 'n': 'x'}, Field({'t': 'param', 'n': 'rec'}, 'w')))
-        if k == 'create_nv':
-            return {'t': 'create_nv', 'k': 'A'}
-        if k == 'using':
-            return {'t': r.choice(['relate', 'unrelate']), 'a': 'uno', 'b': 'other', 'rel': 'R3', 'ph': r.choice(['', "'of'"]),
-                    'using': 'link'}
-        return Assign(Field({'t': 'self'}, 'N'), self.expr('int'))
+            return assign_new('int', 'p', Bin('+', {'t': 'param', 'n': 'x'}, intv()))
+        if k == 'param_if':
+            return If({'t': 'param', 'n': 'flag'}, scoped(lambda: [assign_new('str', 'p', {'t': 'param', 'n': 's'})]))
+        if k == 'enum':
+            return assign_new('int', 'c', {'t': 'enum', 'ns': 'Color', 'n': r.choice(['RED', 'GREEN', 'BLUE'])})
+        if k == 'const':
+            return assign_new('int', 'l', Bin('+', {'t': 'enum', 'ns': 'Group', 'n': 'LIMIT'}, I(1)))
+        if k == 'self_attr':
+            return Assign(Field({'t': 'self'}, 'N'), intv())
+        if k == 'self_read':
+            return assign_new('int', 'n', Field({'t': 'self'}, 'N'))
+        if k == 'self_op':
+            return assign_new('int', 'w', {'t': 'ocall', 'h': {'t': 'self'}, 'n': 'iop', 'ps': ps(k=intv())})
+        return None
 
     def setup(self):
         """a population built by the program itself: instances, attribute values, links"""
